@@ -71,6 +71,7 @@ structure Static where
 
 /-- `GFunction`: keys of `g_lts` in dict order, and `interpolation_table` (`none` = empty dict). -/
 structure GF where
+  tok : Val                       -- which table this is ("calc": computed live for this field; anything else: assigned from outside)
   heights : List Rat
   table : Option (Kind × Fill)    -- `some p`: built, with `built_for = p`
   deriving DecidableEq, Repr, Inhabited
@@ -89,6 +90,7 @@ structure SimArgs where
   D : Rat
   rb : Rat
   hLoad : Rat          -- the height the borehole had when `hybrid_load` was built
+  gtok : Val           -- the g-function table held during the call
   look : GLook
   h : Rat              -- `self.bhe.b.H` during the call
   method : Method
@@ -197,7 +199,7 @@ def lookup (gf : GF) (h : Rat) : Py GLook × GF :=
 /-! ### One GHE -/
 
 def mkGHE (st : Static) (f : FieldId) (h : Rat) : GHE :=
-  { st := st, field := f, hLoad := h, gf := { heights := [h], table := none }, times := .empty, last := none, trace := [] }
+  { st := st, field := f, hLoad := h, gf := { tok := "calc", heights := [h], table := none }, times := .empty, last := none, trace := [] }
 
 /-- `n_hours` and `len(q_dot)` of the HOURLY branch (fix 05a458d: the repeated loads are cut at the horizon). -/
 def hourlyAxis (st : Static) : Nat × Nat :=
@@ -215,14 +217,14 @@ def simulate (K : Kernels) (b : BH) (g : GHE) (m : Method) : Py Temps × GHE :=
     let g1 := { g with gf := gf' }
     match m with
     | .hybrid =>
-        let a : SimArgs := { st := g.st, field := g.field, D := b.D, rb := b.rb, hLoad := g.hLoad, look := look, h := b.H, method := .hybrid, nSteps := 0 }
+        let a : SimArgs := { st := g.st, field := g.field, D := b.D, rb := b.rb, hLoad := g.hLoad, gtok := g.gf.tok, look := look, h := b.H, method := .hybrid, nSteps := 0 }
         (.ok (K.sim a), { g1 with times := .hybrid g.hLoad, last := some a, trace := g.trace ++ [a] })
     | .hourly =>
         let (n, q) := hourlyAxis g.st
         let g2 := { g1 with times := .hourly n }      -- always rebuilt (fix d422d00)
         if n < q then (.error .indexError, g2)        -- more loads than time steps
         else
-          let a : SimArgs := { st := g.st, field := g.field, D := b.D, rb := b.rb, hLoad := g.hLoad, look := look, h := b.H, method := .hourly, nSteps := n }
+          let a : SimArgs := { st := g.st, field := g.field, D := b.D, rb := b.rb, hLoad := g.hLoad, gtok := g.gf.tok, look := look, h := b.H, method := .hourly, nSteps := n }
           (.ok (K.sim a), { g2 with last := some a, trace := g.trace ++ [a] })
     | .other => (.error .valueError, g1)
 
@@ -288,7 +290,7 @@ def cgfHeights (sp : SimParams) : List Rat :=
 def computeG (K : Kernels) (b : BH) (g : GHE) : Py Unit × GHE :=
   let sp := g.st.sim
   if [sp.minH, (sp.minH + sp.maxH) / 2, sp.maxH].all (fun h => K.gcalcOk g.st g.field b.D b.rb h) then
-    (.ok (), { g with gf := { heights := cgfHeights sp, table := none } })
+    (.ok (), { g with gf := { tok := "calc", heights := cgfHeights sp, table := none } })
   else (.error .other, g)
 
 /-- Operations on one GHE and the borehole cell it aliases. -/
@@ -297,6 +299,7 @@ inductive GOp where
   | simulate (m : Method)
   | size (m : Method)
   | cgf
+  | setGF (tok : Val) (heights : List Rat)   -- `ghe.gFunction = <another GFunction object>` (new object: empty table)
   deriving Inhabited
 
 structure GSt where
@@ -325,6 +328,7 @@ def gstep (K : Kernels) : GOp → GSt → Out × GSt
       match computeG K s.b s.g with
       | (.error e, g') => (.err e, { s with g := g' })
       | (.ok _, g') => (.unit, { s with g := g' })
+  | .setGF tok hs, s => (.unit, { s with g := { s.g with gf := { tok := tok, heights := hs, table := none } } })
 
 def runG (K : Kernels) : List GOp → GSt → List Out × GSt
   | [], s => ([], s)
@@ -640,9 +644,9 @@ def showMethod : Method → String
   | .hybrid => "hybrid" | .hourly => "hourly" | .other => "other"
 
 /-- One simulation as compared with the implementation:
-    `field;hLoad;heights;interp;hEq;h;method;nSteps`. -/
+    `field;hLoad;heights;interp;hEq;h;method;nSteps;table`. -/
 def showArgs (a : SimArgs) : String :=
-  s!"{a.field};{showRat a.hLoad};{showRats a.look.heights};{showOptKF a.look.interp};{showRat a.look.hEq};{showRat a.h};{showMethod a.method};{a.nSteps}"
+  s!"{a.field};{showRat a.hLoad};{showRats a.look.heights};{showOptKF a.look.interp};{showRat a.look.hEq};{showRat a.h};{showMethod a.method};{a.nSteps};{a.gtok}"
 
 def showAxis : Axis → String
   | .empty => "empty" | .hybrid h => s!"hybrid@{showRat h}" | .hourly n => s!"hourly#{n}"
@@ -669,7 +673,7 @@ def cfgKey (c : Config) : String :=
   s!"{staticKey c.st}|{geomKindName c.geom.kind}|{c.geom.tok}|{showRat c.D}|{showRat c.rb}"
 
 def simKey (a : SimArgs) : String :=
-  s!"{staticKey a.st}#{a.field}#{showRats a.look.heights}#{showRat a.h}#{showMethod a.method}"
+  s!"{staticKey a.st}#{a.field}#{a.gtok}#{showRats a.look.heights}#{showRat a.h}#{showMethod a.method}"
 
 def parseMethod? : String → Option Method
   | "hybrid" => some .hybrid | "hourly" => some .hourly | "other" => some .other | _ => none
@@ -754,6 +758,7 @@ def parseGOp? (t : String) : Option GOp :=
   | ["S", m] => (parseMethod? m).map .simulate
   | ["Z", m] => (parseMethod? m).map .size
   | ["G"] => some .cgf
+  | ["T", tok, hs] => (parseRats hs).map (.setGF tok)
   | _ => none
 
 def parseFT : String → FlowType
@@ -817,7 +822,7 @@ def splitSections (toks : List String) : List (List String) :=
   (cur.reverse :: acc).reverse
 
 /-- Line-protocol commands.
-    `apighe <months> <maxH> <minH> <loadlen> <field> <hLoad> <heights> <H0> -- <ops…> -- <sims…> -- <brents…>`
+    `apighe <months> <maxH> <minH> <loadlen> <field> <hLoad> <heights> <H0> <table token> -- <ops…> -- <sims…> -- <brents…>`
         → per op `out|axis|table|heights|H|last` joined by spaces, then `trace=…`
     `apispec …same…`  → the outcomes of `specG` (every call on the object as new)
     `apirun <ops…> -- <sims…> -- <brents…> -- <strats…> -- <bad heights>`
@@ -838,14 +843,14 @@ def cmd : List String → Option String
 where
   gheCmd (spec : Bool) (rest : List String) : String :=
     match splitSections rest with
-    | [[mo, mx, mn, ll, f, hl, hs, h0], ops, sims, brents] =>
+    | [[mo, mx, mn, ll, f, hl, hs, h0, tok0], ops, sims, brents] =>
         (match mo.toNat?, parseRat? mx, parseRat? mn, ll.toNat?, f.toNat?, parseRat? hl, parseRats hs, parseRat? h0, ops.mapM parseGOp? with
          | some mo, some mx, some mn, some ll, some f, some hl, some hs, some h0, some ops =>
              let st : Static := { fluid := "f", pipe := "p", grout := "g", soil := "s", pipeType := "t", loads := { tok := "l", len := ll },
                                   sim := { months := mo, maxEft := 35, minEft := 5, maxH := mx, minH := mn, maxBh := none, cont := false },
                                   flow := 1, flowType := .borehole }
              let K := scriptKernels (parseSims sims) (parseScripts brents) [] []
-             let g0 : GHE := { (mkGHE st f hl) with gf := { heights := hs, table := none } }
+             let g0 : GHE := { (mkGHE st f hl) with gf := { tok := tok0, heights := hs, table := none } }
              let s0 : GSt := { b := { H := h0, D := 2, rb := 7 / 100 }, g := g0 }
              if spec then " ".intercalate ((specG K ops s0).map showOut)
              else
